@@ -46,6 +46,7 @@ def molecules(tier):
         ("double-bond", {"elements": [S("[]", ["[$]=CC=[$]"], ["[$]=O", "[$]=C"], "[]", sz(60, 50))], "mixture": None}),
         ("branched-then-suffix", {"elements": [T("N"), S("[>]", ["[<]CC(O[>])CO[>]"], ["[<]Cl"], "[<]", sz(150, 120)), T("F")], "mixture": None}),
         ("sym-chain-then-suffix", {"elements": [S("[]", ["[$]CO[$]"], ["[$]Cl", "[$|0|]Br"], "[$]", sz(60, 50)), T("F")], "mixture": None}),
+        ("two-bond-orders-on-one-atom", {"elements": [S("[]", ["[<]CC(=[$])[>]"], ["[>]Br", "[<]I", "[$]=O"], "[]", sz(70, 60))], "mixture": None}),
         ("multiatom-prefix", {"elements": [T("CCO"), S("[>]", ["[<]CC[>]"], [], "[<]", sz(60, 50)), T("C(F)F")], "mixture": None}),
     ]
     if tier == "thorough":
@@ -272,6 +273,31 @@ def eval_case(kind, data):
             st2, out2 = run(r2)
             if st2 != "ok" or Chem.MolToSmiles(out2.to_mol()) != smi:
                 viol(res, f"C18|not-deterministic|{name}", f"{text}: replaying the same answers gives a different molecule", {"text": text, "script": script})
+    # the same AtomGraph object generating a second time must again hold one molecule (object reuse)
+    import networkx as nx
+
+    for sc in ([], [1], [0, 1], [1, 1, 1]):
+        def twice():
+            ag = AtomGraph(sag, rng=ScriptedGenerator(sc, menu=(0.2, 0.8)))
+            ag.generate()
+            ag.rng = ScriptedGenerator(list(reversed(sc)), menu=(0.2, 0.8))
+            ag.generate()
+            return ag
+
+        st, out = run_limited(twice, (), 40)
+        res["transitions"] += 2
+        n += 1
+        if st == "ok":
+            try:
+                smi2 = Chem.MolToSmiles(out.to_mol())
+                if "." in smi2 or not nx.is_connected(out.graph):
+                    viol(res, f"C18|second-generate-not-one-molecule|{name}", f"{text}: after a second generate() on the same AtomGraph object the result is {smi2}", {"text": text, "script": sc})
+            except Exception as e:  # noqa
+                viol(res, f"C18|second-generate-not-sanitisable|{name}", f"{text}: second generate() on the same object: {type(e).__name__}: {str(e)[:60]}", {"text": text, "script": sc})
+        elif st in ("timeout", "memory"):
+            viol(res, f"C18|second-generate-does-not-terminate|{name}", f"{text}: second generate() {st}", {"text": text, "script": sc})
+        elif "single source node" not in str(out) and "out of range" not in str(out) and "HarnessError" not in str(out):
+            viol(res, f"C18|second-generate-raises|{name}|{str(out).split('(')[0]}", f"{text}: second generate() on the same object raises {out}", {"text": text, "script": sc})
     res["capped"] = bool(explore.capped)
     res["traces"] = n
     res["evals"] = n
